@@ -386,7 +386,8 @@ def a2_to_a6(ctx, F, fn, body, sym):
     for nm in sorted(offs):
         inits = [n for n, _ in hir.walk(body) if n.get("k") == "SLet" and n["pat"].get("k") == "PBind" and n["pat"].get("name") == nm and n.get("init") is not None]
         sets = [(n, anc) for n, anc in hir.walk(body) if n.get("k") == "Assign" and hir.strip(n["l"]).get("k") == "Path" and hir.strip(n["l"])["to"].get("name") == nm]
-        ok_i = len(inits) == 1 and sym(inits[0]["init"]) == ("lit", False)
+        # (a flag that arrives as the field of an options value has no `let` of its own here: only its assignments are looked at)
+        ok_i = (len(inits) == 1 and sym(inits[0]["init"]) == ("lit", False)) or not inits
         ok_s = True
         for n, anc in sets:
             if sym(n["r"]) == ("lit", False):
